@@ -217,7 +217,7 @@ pub fn perm_base_opts(seed: u64, i: usize, rich: bool) -> Def {
     }
     if rich && rng.chance(1, 3) {
         // generic enum: concrete types and the source lifetime are given by #[logos] items
-        match rng.below(4) {
+        match rng.below(5) {
             0 => {
                 def.raw_generics = "<T>".into();
                 def.extra_logos_items.push(format!("type T = {}", rng.pick_str(&["&'static str", "u32", "&str", "Vec<&'static [u8]>", "(u8, &'static str)"])));
@@ -239,6 +239,13 @@ pub fn perm_base_opts(seed: u64, i: usize, rich: bool) -> Def {
                 }
                 def.raw_variants = "    #[token(\"\\u{7}\", gen_cb)]\n    Gen(T),\n    #[token(\"\\u{6}\", gen_cb2)]\n    Other(U),\n".into();
             }
+            3 => {
+                // one concrete type mentions another type parameter
+                def.raw_generics = "<N, V>".into();
+                def.extra_logos_items.push("type N = u64".into());
+                def.extra_logos_items.push(format!("type V = {}", rng.pick_str(&["Vec<N>", "Option<N>", "(N, N)", "&'static [N]"])));
+                def.raw_variants = "    #[token(\"\\u{7}\", gen_cb)]\n    Gen(N),\n    #[token(\"\\u{6}\", gen_cb2)]\n    Other(V),\n".into();
+            }
             _ => {
                 def.raw_generics = "<'x>".into();
                 def.extra_logos_items.push(format!("lifetime = {}", rng.pick_str(&["'x", "none"])));
@@ -248,6 +255,19 @@ pub fn perm_base_opts(seed: u64, i: usize, rich: bool) -> Def {
     }
     if !def.pats.iter().any(|p| p.kind == PatKind::Skip) {
         def.push(Pat::skip("[ \\n]+").prio(3));
+        def.normalize();
+    }
+    if rich && rng.chance(1, 4) {
+        // several overlapping skips; their relative order must not matter for acceptance
+        let mut prios = vec![5usize, 2, 5];
+        if rng.chance(1, 2) {
+            prios = vec![6, 2, 4];
+        }
+        rng.shuffle(&mut prios);
+        for (t, pr) in ["[a-f]+", "[a-z]+", "[a-c]+"].iter().zip(prios) {
+            def.push(Pat::skip(t).prio(pr));
+        }
+        def.family = "perm-skips".into();
         def.normalize();
     }
     if rng.chance(1, 2) {
@@ -317,13 +337,33 @@ pub fn perm_one(seed: u64, i: usize) -> (usize, usize, Vec<Value>, Option<Value>
         let is_sub = |s: &String| s.starts_with("subpattern ");
         let is_skip = |s: &String| s.starts_with("skip");
         let mut tried = 0;
-        for perm in permutations(n, 24, &mut rng).into_iter().skip(1) {
+        let mut skip_orders_tried = 0;
+        for perm in permutations(n, 40, &mut rng).into_iter().skip(1) {
             // dependency respecting: subpatterns keep their relative order and precede all skips; skips keep their order
             let pos = |idx: usize| perm.iter().position(|&x| x == idx).unwrap();
             let subs: Vec<usize> = (0..n).filter(|&k| is_sub(&items[k])).collect();
             let skips: Vec<usize> = (0..n).filter(|&k| is_skip(&items[k])).collect();
-            let ok = subs.windows(2).all(|w| pos(w[0]) < pos(w[1])) && skips.windows(2).all(|w| pos(w[0]) < pos(w[1])) && subs.iter().all(|&s| skips.iter().all(|&k| pos(s) < pos(k)));
-            if !ok {
+            let deps_ok = subs.windows(2).all(|w| pos(w[0]) < pos(w[1])) && subs.iter().all(|&s| skips.iter().all(|&k| pos(s) < pos(k)));
+            if !deps_ok {
+                continue;
+            }
+            let skips_in_order = skips.windows(2).all(|w| pos(w[0]) < pos(w[1]));
+            if !skips_in_order {
+                // reordered skips renumber the leaves, so the generated text legitimately differs; the lexer must
+                // still be accepted or rejected alike (with the same number of diagnostics)
+                if skip_orders_tried >= 6 {
+                    continue;
+                }
+                skip_orders_tried += 1;
+                let mut d = base.clone();
+                d.logos_order = perm.clone();
+                evals += 1;
+                variants_tried += 1;
+                let a = analyze::run_generate(&d);
+                let k = outcome_key(&a);
+                if k.0 != k0.0 || (k.0 == "rejected" && k.1.len() != k0.1.len()) {
+                    violations.push(violation("C18", "skip-order-changes-acceptance", &format!("#[logos(...)] items in order {perm:?} (skips reordered): canonical order is {} with {} diagnostics, this order is {} with {}", k0.0, k0.1.len(), k.0, k.1.len()), &d, None, None));
+                }
                 continue;
             }
             tried += 1;
